@@ -96,6 +96,12 @@ def gen_batch(rng, nsent, hostile=True):
         else:
             kinds.append('normal')
     cfg['max_step'] = min(cfg['max_step'], 50000)
+    if rng.random() < 0.45:
+        # a narrow beam: per-word state left over from an earlier sentence would change what is admitted
+        cfg['pruning_size'] = rng.randint(1, max(1, T - 1))
+        if rng.random() < 0.5:
+            cfg['use_beta'] = True
+            cfg['beta'] = rng.choice((1e-3, 0.1, 0.5))
     if 'long' in kinds and (not sparse or rng.random() < 0.7):
         cfg['max_length'] = 6
     if rng.random() < 0.25:
